@@ -2,8 +2,11 @@ package peng
 
 import (
 	"fmt"
+	"regexp"
 	"sort"
 	"strings"
+
+	"google.golang.org/grpc/codes"
 
 	"verif/scen"
 )
@@ -343,6 +346,11 @@ func provenance(c Case, r Result, prop string) *Violation {
 			}
 		case "return":
 			ci, ok := callOf[e.Token]
+			if ok && e.ErrText != "" {
+				if v := errorProvenance(r, ci, e, prop); v != nil {
+					return v
+				}
+			}
 			if !ok || ci.Kind != "RPC" || e.Outcome != "value" || e.Value == nil {
 				continue
 			}
@@ -362,6 +370,81 @@ func provenance(c Case, r Result, prop string) *Violation {
 			if !match {
 				return viol(prop+"/provenance/rpc/not-produced", "RPC call %d returned a reply its handler had not produced", ci.Idx)
 			}
+		}
+	}
+	return nil
+}
+
+var (
+	nodeErrRe = regexp.MustCompile(`(?m)^\s*node (\d+): (.*)$`)
+	stampRe   = regexp.MustCompile(`code = (\w+) desc = .*tok=(\d+) srv=(\d+)`)
+)
+
+// errorProvenance checks the handler errors a call reports (handlers stamp their
+// errors with the request's token and their server): an error reaches only the
+// call whose request caused it, under the node whose handler produced it, with
+// the code that handler returned.
+func errorProvenance(r Result, ci CallInfo, e scen.Event, prop string) *Violation {
+	fam := kindFamily(ci.Kind)
+	ids := r.IDs[ci.Mgr]
+	type ne struct {
+		srv  int
+		text string
+	}
+	var errs []ne
+	if ci.Kind == "RPC" {
+		errs = append(errs, ne{ci.Targets[0], e.ErrText})
+	} else {
+		for _, m := range nodeErrRe.FindAllStringSubmatch(e.ErrText, -1) {
+			var id uint64
+			fmt.Sscan(m[1], &id)
+			srv := -1
+			for s, sid := range ids {
+				if uint64(sid) == id {
+					srv = s
+				}
+			}
+			if srv < 0 {
+				return viol(prop+"/provenance/"+fam+"/error-unknown-node", "call %d (%s): error under unknown node id %d", ci.Idx, ci.Kind, id)
+			}
+			targeted := false
+			for _, s := range ci.Targets {
+				if s == srv {
+					targeted = true
+				}
+			}
+			if !targeted {
+				return viol(prop+"/provenance/"+fam+"/error-untargeted-node", "call %d (%s): error under node %d, which the call did not target: %s", ci.Idx, ci.Kind, id, m[2])
+			}
+			errs = append(errs, ne{srv, m[2]})
+		}
+	}
+	for _, x := range errs {
+		m := stampRe.FindStringSubmatch(x.text)
+		if m == nil {
+			continue // not a handler error (transport, context, closed)
+		}
+		var tok uint64
+		var srv int
+		fmt.Sscan(m[2], &tok)
+		fmt.Sscan(m[3], &srv)
+		if tok != e.Token {
+			return viol(prop+"/provenance/"+fam+"/foreign-error", "call %d (%s) was given, under server %d, the error a handler returned for another request (token %d, server %d): %s", ci.Idx, ci.Kind, x.srv, tok, srv, x.text)
+		}
+		if srv != x.srv {
+			return viol(prop+"/provenance/"+fam+"/error-wrong-node", "call %d (%s): the error under server %d was produced by server %d: %s", ci.Idx, ci.Kind, x.srv, srv, x.text)
+		}
+		produced := false
+		for _, p := range r.Events {
+			if p.Kind == "exit" && p.Server == srv && p.Token == tok && p.ErrCode > 0 && p.T < e.T {
+				produced = true
+				if want := codes.Code(p.ErrCode).String(); want != m[1] {
+					return viol(prop+"/provenance/"+fam+"/error-code-changed", "call %d (%s): server %d failed with code %s, the call reports %s", ci.Idx, ci.Kind, srv, want, m[1])
+				}
+			}
+		}
+		if !produced {
+			return viol(prop+"/provenance/"+fam+"/error-not-produced", "call %d (%s): the error under server %d is not one its handler had returned for this request: %s", ci.Idx, ci.Kind, srv, x.text)
 		}
 	}
 	return nil
